@@ -248,6 +248,21 @@ def run(M, c):
                         dd = ta1.diff(ta2, ab)                 # contract judges against the fields
                     except Exception as ex:  # noqa: BLE001
                         M.check("operators", False, f"C20/aware-diff:raised-{type(ex).__name__}", "Time.diff between aware Times raised", t1=str(ta1), t2=str(ta2))
+                # the two siblings (equal and hash-equal, other times of day) shifted one after the other, in both orders:
+                # each moves on its OWN clock (anything memoised per Time value would hand one the other's result)
+                amt = c["td"] % DAY
+                pair = [ta1, ta2] if c["td"] % 2 else [ta2, ta1]
+                for tx in pair:
+                    wx = (tx.hour * 3600 + tx.minute * 60 + tx.second) * US + tx.microsecond
+                    try:
+                        got_ = (tus(tx.add(microseconds=amt)), tus(tx.subtract(microseconds=amt)), tus(tx + dt.timedelta(microseconds=amt)),
+                                tus(tx - dt.timedelta(microseconds=amt)))
+                    except Exception as ex:  # noqa: BLE001
+                        M.check("operators", False, f"C20/aware-sibling-shift:raised-{type(ex).__name__}", "shifting an aware Time raised", t=str(tx), amount_us=amt)
+                        continue
+                    exp_ = ((wx + amt) % DAY, (wx - amt) % DAY, (wx + amt) % DAY, (wx - amt) % DAY)    # (whether the tzinfo is kept is not in the statement)
+                    M.check("operators", got_ == exp_, "C20/aware-sibling-shift", "an aware Time shifted after an equal (same instant, other offset) Time does not move on its own clock",
+                            t=str(tx), amount_us=amt, got=list(got_[:4]), expected=list(exp_[:4]), order=[str(p_) for p_ in pair])
     # diff / t2 - t1 / closest / farthest (contracts judge diff, closest, farthest)
     t2, t3 = _mk(M, c["t2"]), _mk(M, c["t3"])
     if (c["t2"] - c["t"]) % US:
